@@ -174,7 +174,7 @@ def sensitivity(info):
 def run(repo, rep, tier):
     rep.decided = ["D1 refusal outside -2000..4000 (28 finders)", "D2 prologue constants agree with the orbital-element tables",
                    "D3 common prologue skeleton", "D4 perihelion/aphelion constants and selection; passage_nodes identical"]
-    rep.undecided = ["returned instant is an event of the VSOP87 theory (depends on the corr series)", "monotonicity",
+    rep.undecided = ["returned instant is an event of the VSOP87 theory (depends on the corr series)", "monotonicity (decided only as far as the fractional year the period count is taken from)",
                      "spacing within natural variation", "accuracy of node passages"]
     rep.assumptions = ["ORBITAL_ELEM tables are the library's mean elements (tied to the series by C07)"]
     rep.rule("R-RANGE-REFUSE", "a dominating test with the property-stated bounds leads to raise ValueError; no value is returned on a path that skips it")
@@ -263,6 +263,10 @@ def run(repo, rep, tier):
     rep.floor("periodic-term finders", n_f, 28)
     perihelion(repo, rep)
     passage_nodes(repo, rep)
+    # every finder derives its period count k from Epoch.year(): a fractional year that passes the next integer inside a year, or
+    # jumps at New Year, makes k (and with it the returned event) step backwards as the query advances
+    from .c16 import year_fraction
+    year_fraction(repo, rep)
     fam = [(p, "%s.%s" % (p, q)) for p, qs in FINDERS.items() for q in qs] + [(p, p + ".perihelion_aphelion") for p in PERI] + \
           [(p, p + ".passage_nodes") for p in PERI]
     timearg_scan(repo, rep, fam)
